@@ -17,6 +17,7 @@ use arrow_array::types::*;
 use arrow_array::*;
 use arrow_buffer::{BooleanBuffer, IntervalDayTime, IntervalMonthDayNano, NullBuffer, ScalarBuffer, i256};
 use arrow_schema::{ArrowError, DataType, IntervalUnit, TimeUnit};
+use num_bigint::BigInt;
 use std::sync::Arc;
 use vcommon::*;
 
@@ -667,6 +668,129 @@ fn run_case(line: &str) -> String {
     }
 }
 
+
+// ------------------------------------------------------------------ known finding: decimal intermediates
+
+const KF_DEC: &str = "kf:decimal-intermediate-rescale-overflow";
+
+fn big(s: &str) -> BigInt {
+    s.parse::<BigInt>().expect("bigint")
+}
+fn pow10(k: u32) -> BigInt {
+    BigInt::from(10).pow(k)
+}
+fn fits(v: &BigInt, bits: u16) -> bool {
+    let half = BigInt::from(1) << (bits as usize - 1);
+    *v >= -half.clone() && *v < half
+}
+
+/// Implementation-independent predicate (arbitrary-precision reference) for the known finding
+/// `kf:decimal-intermediate-rescale-overflow`: a decimal add/sub/div/rem between valid decimal
+/// types where every processed slot pair is within its declared precision and has an exact
+/// result that is representable in the result's physical type (no zero divisor), while a
+/// multiplier `10^k` or a rescaled operand `l*10^k` exceeds the native width — the property
+/// demands the exact values, the kernels return ArithmeticOverflow.
+fn kf_decimal(line: &str) -> bool {
+    let t: Vec<&str> = line.split(' ').collect();
+    if t.len() != 7 || t[1] != "arith" || !t[3].starts_with('d') || !t[5].starts_with('d') || t[3].starts_with("da") || t[3].starts_with("du") || t[5].starts_with("da") || t[5].starts_with("du") {
+        return false;
+    }
+    let (Ty::Dec(b1, p1, s1), Ty::Dec(b2, p2, s2)) = (parse_ty(t[3]), parse_ty(t[5])) else { return false };
+    if b1 != b2 {
+        return false;
+    }
+    let bits = b1;
+    let maxp: i32 = match bits {
+        32 => 9,
+        64 => 18,
+        128 => 38,
+        _ => 76,
+    };
+    let (p1, s1, p2, s2) = (p1 as i32, s1 as i32, p2 as i32, s2 as i32);
+    if !(1 <= p1 && p1 <= maxp && 0 <= s1 && s1 <= p1 && 1 <= p2 && p2 <= maxp && 0 <= s2 && s2 <= p2) {
+        return false;
+    }
+    // (k1, k2, checked multipliers?) as documented
+    let (op, k1, k2, mult_checked): (&str, u32, u32, bool) = match t[2] {
+        "add" | "add_wrapping" | "sub" | "sub_wrapping" => {
+            if s1 == s2 {
+                return false;
+            }
+            let rs = s1.max(s2);
+            (if t[2].starts_with("add") { "add" } else { "sub" }, (rs - s1) as u32, (rs - s2) as u32, true)
+        }
+        "div" => {
+            let rs = (s1 + 4).min(maxp);
+            ("div", (rs - s1 + s2) as u32, 0, true)
+        }
+        "rem" => {
+            if s1 == s2 {
+                return false;
+            }
+            let rs = s1.max(s2);
+            ("rem", (rs - s1) as u32, (rs - s2) as u32, false)
+        }
+        _ => return false,
+    };
+    let (m1, m2) = (pow10(k1), pow10(k2));
+    let pre_overflow = mult_checked && (!fits(&m1, bits) || !fits(&m2, bits));
+    let l = parse_operand(t[4]);
+    let r = parse_operand(t[6]);
+    // slot pairs processed by the kernel
+    let pairs: Vec<(&(String, bool), &(String, bool))> = match (l.scalar, r.scalar) {
+        (true, false) => r.slots.iter().map(|y| (&l.slots[0], y)).collect(),
+        (false, true) => l.slots.iter().map(|x| (x, &r.slots[0])).collect(),
+        _ => {
+            if l.slots.len() != r.slots.len() {
+                return false;
+            }
+            l.slots.iter().zip(r.slots.iter()).collect()
+        }
+    };
+    let (lim1, lim2) = (pow10(p1 as u32), pow10(p2 as u32));
+    let mut interm = false;
+    for (x, y) in pairs {
+        if !x.1 || !y.1 {
+            continue;
+        }
+        let (a, b) = (big(&x.0), big(&y.0));
+        let in_prec = a > -lim1.clone() && a < lim1 && b > -lim2.clone() && b < lim2;
+        let (ra, rb) = (&a * &m1, &b * &m2);
+        let slot_interm = !fits(&ra, bits) || !fits(&rb, bits);
+        if !in_prec && (pre_overflow || slot_interm) {
+            // beyond the declared precision the as-written behaviour is the specification: an error
+            return false;
+        }
+        let zero = BigInt::from(0);
+        let exact = match op {
+            "add" => &ra + &rb,
+            "sub" => &ra - &rb,
+            "div" => {
+                if rb == zero {
+                    return false;
+                }
+                &ra / &rb
+            }
+            _ => {
+                if rb == zero {
+                    return false;
+                }
+                if !in_prec && bits < 512 && ra == -(BigInt::from(1) << (bits as usize - 1)) && rb == BigInt::from(-1) {
+                    return false; // std checked_rem(MIN, -1)
+                }
+                &ra % &rb
+            }
+        };
+        if !fits(&exact, bits) {
+            return false;
+        }
+        if slot_interm {
+            interm = true;
+        }
+    }
+    pre_overflow || interm
+}
+
 // ------------------------------------------------------------------ generation
 
 const LENS: [usize; 22] = [0, 1, 1, 2, 2, 3, 3, 4, 5, 7, 8, 9, 15, 16, 17, 31, 33, 63, 64, 65, 127, 129];
@@ -990,6 +1114,89 @@ fn gen_arith_temporal(rng: &mut Rng) -> (String, String) {
     (line, tags)
 }
 
+/// cases aimed at the known finding: big in-precision operands whose rescaled intermediate
+/// leaves the native width while the exact result fits
+fn gen_arith_dec_kf(rng: &mut Rng) -> (String, String) {
+    let bits = *rng.pick(&[128u16, 128, 256, 64, 32]);
+    let maxp: u8 = match bits {
+        32 => 9,
+        64 => 18,
+        128 => 38,
+        _ => 76,
+    };
+    let digits = |rng: &mut Rng, n: usize, first: &[u8]| -> String {
+        let mut s = String::new();
+        for i in 0..n {
+            let d = if i == 0 { *rng.pick(first) } else { rng.below(10) as u8 };
+            s.push((b'0' + d) as char);
+        }
+        s
+    };
+    let sign = |rng: &mut Rng, s: String| if rng.bool() { format!("-{}", s) } else { s };
+    let n = 1 + rng.usize(3);
+    let (op, lt, rt, ls, rs): (&str, Ty, Ty, Vec<String>, Vec<String>) = match rng.below(4) {
+        0 => {
+            // div with equal scales: l*10^4 overflows for |l| > MAX/10^4, quotient is small
+            let s = rng.below(maxp as u64 - 3) as i8;
+            let ls = (0..n).map(|_| { let nd = maxp as usize - rng.usize(3); let d = digits(rng, nd, &[1, 2, 5, 9]); sign(rng, d) }).collect();
+            let rs = (0..n).map(|_| { let nd = maxp as usize - rng.usize(6); let d = digits(rng, nd, &[1, 3, 9]); sign(rng, d) }).collect();
+            ("div", Ty::Dec(bits, maxp, s), Ty::Dec(bits, maxp, s), ls, rs)
+        }
+        1 => {
+            // div where the multiplier 10^(s2+4) itself exceeds the native width
+            let s2 = maxp as i8 - rng.below(3) as i8;
+            let ls = (0..n).map(|_| rng.range(-50, 50).to_string()).collect();
+            let rs = (0..n).map(|_| { let nd = maxp as usize - rng.usize(2); let d = digits(rng, nd, &[1, 2, 9]); sign(rng, d) }).collect();
+            ("div", Ty::Dec(bits, maxp, 0), Ty::Dec(bits, maxp, s2), ls, rs)
+        }
+        2 => {
+            // rem with different scales: l*10^k overflows, the remainder is below |r|
+            let k = 1 + rng.below(3) as i8;
+            let ls = (0..n).map(|_| { let d = digits(rng, maxp as usize, &[2, 5, 9]); sign(rng, d) }).collect();
+            let rs = (0..n).map(|_| { let nd = 1 + rng.usize(maxp as usize); let d = digits(rng, nd, &[1, 3, 7]); sign(rng, d) }).collect();
+            ("rem", Ty::Dec(bits, maxp, 0), Ty::Dec(bits, maxp, k), ls, rs)
+        }
+        _ => {
+            // add/sub with different scales: l*10 just beyond MAX, r pulls the sum back into range
+            let half = BigInt::from(1) << (bits as usize - 1);
+            let base = &half / BigInt::from(10) + BigInt::from(1 + rng.below(1000));
+            let add = rng.bool();
+            let ls: Vec<String> = (0..n).map(|_| base.to_string()).collect();
+            let rs: Vec<String> = (0..n)
+                .map(|_| {
+                    let d = digits(rng, maxp as usize, &[5, 9]);
+                    if add { format!("-{}", d) } else { d }
+                })
+                .collect();
+            (if add { "add" } else { "sub" }, Ty::Dec(bits, maxp, 0), Ty::Dec(bits, maxp, 1), ls, rs)
+        }
+    };
+    let fmt = |rng: &mut Rng, ty: &Ty, v: &Vec<String>, scalar_ok: bool| -> String {
+        if scalar_ok && rng.chance(1, 5) {
+            return format!("S:{}", v[0]);
+        }
+        let mut slots: Vec<String> = v.clone();
+        if rng.chance(1, 3) {
+            slots.push(format!("n:{}", gen_int(rng, ty, 2)));
+        }
+        let off = if rng.chance(1, 4) { *rng.pick(&[1usize, 8, 9]) } else { 0 };
+        format!("A{}:{}", off, slots.join(","))
+    };
+    let l = fmt(rng, &lt, &ls, false);
+    let mut r = fmt(rng, &rt, &rs, true);
+    // keep array lengths equal
+    let (ll, rl) = (l.matches(',').count(), r.matches(',').count());
+    if !r.starts_with("S:") && ll != rl {
+        r = format!("A0:{}", rs.join(","));
+        if ll > rl {
+            r.push_str(&format!(",n:{}", gen_int(rng, &rt, 2)));
+        }
+    }
+    let line = format!("C12 arith {} {} {} {} {}", op, show_ty(&lt), l, show_ty(&rt), r);
+    let tags = format!("op:arith:{} ty:dec{} mode:kf{}", op, bits, operand_tags(&line));
+    (line, tags)
+}
+
 fn gen_neg(rng: &mut Rng) -> (String, String) {
     let ty = match rng.below(8) {
         0..=2 => *rng.pick(&INT_TYS),
@@ -1165,6 +1372,7 @@ fn gen_i256_case(rng: &mut Rng) -> (String, String) {
 fn gen_case(rng: &mut Rng) -> (String, String) {
     match rng.below(20) {
         0..=4 => gen_arith_int(rng),
+        5 if rng.chance(3, 4) => gen_arith_dec_kf(rng),
         5..=7 => gen_arith_dec(rng),
         8..=9 => gen_arith_temporal(rng),
         10 => gen_neg(rng),
@@ -1237,7 +1445,8 @@ fn main() {
     if args.mode == "replay" {
         for line in read_cases(args.replay.as_ref().unwrap()) {
             let a = run_case(&line);
-            sink.case(line, a, "replay");
+            let tags = if kf_decimal(&line) { format!("replay {}", KF_DEC) } else { "replay".to_string() };
+            sink.case(line, a, &tags);
         }
     } else {
         let mut rng = Rng::new(args.seed ^ 0xC12);
@@ -1245,6 +1454,10 @@ fn main() {
         for _ in 0..n {
             let (line, mut tags) = gen_case(&mut rng);
             let a = run_case(&line);
+            if kf_decimal(&line) {
+                tags.push(' ');
+                tags.push_str(KF_DEC);
+            }
             if nontrivial(&line, &tags) && !tags.split(' ').any(|t| t == "nt") {
                 tags.push_str(" nt");
             }
